@@ -1,18 +1,19 @@
 import PlzVerif.Lemmas.GC
+import PlzVerif.Lemmas.GCTests
 import PlzVerif.Generated.C25
 /-!
 C25  Garbage collection never removes anything still needed.
 
-`Needed G Q t`: `t` is a kept root or something a kept root transitively depends on, where the kept roots are the
-non-test binaries (all binaries with `--conservative`), targets with a kept label, named targets, registered
-subincludes, command-line targets, and — without `--conservative` — every test of a needed target (least
-fixpoint).  The property: nothing `Needed` is proposed for removal, and no file that a `Needed` target uses as a
-source or as data is proposed for deletion.
+`Needed G Q t` (Lemmas/GCTests.lean): `t` is a kept root or something a kept root transitively depends on, where the
+kept roots are the non-test binaries (all binaries with `--conservative`), targets with a kept label, named targets,
+registered subincludes, command-line targets, and — without `--conservative` — every test of a needed target (least
+fixpoint).  The property: nothing `Needed` is proposed for removal (nor the rule of a needed hidden sub-target, which
+would disappear with it), and no file that a `Needed` target uses as a source or as data is proposed for deletion.
 
-The code violates it in four ways (witnesses below, replayed on the real code from corpus/C25/known-*.ops);
-the partial theorems say exactly what does hold: nothing reachable from an initial
-root is proposed for removal (with `--conservative` that is all of `Needed`), and no source or data file of a kept
-target is proposed for deletion.
+The pinned code violated it in four ways (gc_sibling redirection, data files, rules of needed sub-targets, single-pass
+test handling); all four were repaired in /repo with `fix:` commits and the theorems below are about the repaired
+code: `C25_targets`, `C25_subtargets`, `C25_srcs` hold at full strength for every graph.  The old witnesses live on as
+`corpus/C25/fixed-*.ops`, replayed on every run, and as the `example`s below showing the repaired behaviour.
 -/
 namespace PlzVerif.Props.C25
 open PlzVerif.GC
@@ -25,7 +26,7 @@ def FactsOK : Bool :=
     ["range GRAPH.AllTargets() { if (v01.IsBinary && (!v01.IsTest() || INCLUDETESTS)) || v01.HasAnyLabel(KEEPLABELS) || anyInclude(NAMED, v01.Label) || v01.Label.Subrepo != \"\" { addTarget(GRAPH, KEEP, v01) } }",
      "range GRAPH.PackageMap() { for _, v02 := range v01.Subincludes { addTarget(GRAPH, KEEP, GRAPH.TargetOrDie(v02)) } }",
      "range ARGS { if v01.IsAllSubpackages() { for _, v02 := range GRAPH.PackageMap() { if v02.IsIncludedIn(v01) { for _, v01 := range v02.AllTargets() { addTarget(GRAPH, KEEP, v01) } } } } else { addTarget(GRAPH, KEEP, GRAPH.Target(v01)) } }",
-     "if !INCLUDETESTS { for _, v01 := range GRAPH.AllTargets() { if v01.IsTest() { for _, v02 := range publicDependencies(GRAPH, v01) { if KEEP[v02] && !v02.TestOnly { addTarget(GRAPH, KEEP, v01) } else if v02.TestOnly { addTarget(GRAPH, KEEP, v02) } } } } }",
+     "if !INCLUDETESTS { for v01 := true; v01; { v02 := len(KEEP) for _, v03 := range GRAPH.AllTargets() { if v03.IsTest() { for _, v04 := range publicDependencies(GRAPH, v03) { if KEEP[v04] && !v04.TestOnly { addTarget(GRAPH, KEEP, v03) } else if v04.TestOnly { addTarget(GRAPH, KEEP, v04) } } } } v01 = len(KEEP) != v02 } }",
      "range KEEP { for _, v02 := range v01.AllLocalSourcePaths() { KEEPSRCS[v02] = true } ; for _, v03 := range v01.AllData() { if v04, v05 := v03.(core.FileLabel); v05 { KEEPSRCS[v04.Paths(GRAPH)[0]] = true } } }",
      "range GRAPH.AllTargets() { if v02 := gcSibling(GRAPH, v01); !v02.HasParent() && !KEEP[v02] && !KEEP[v01] && isIncluded(v02, FILTER) { RET = append(RET, v01.Label) for _, v03 := range v01.AllLocalSourcePaths() { if !KEEPSRCS[v03] { RETSRCS = append(RETSRCS, v03) } } } }",
      "sort.Sort(RET)",
@@ -55,18 +56,6 @@ set_option maxRecDepth 100000 in
 /-- Obligation a code change can break. -/
 theorem C25_facts_ok : FactsOK = true := by decide
 
-/-- `d` is a public dependency of `t`: reached through `t`'s own rule (targets with the same `Parent()` label),
-first target outside it -/
-inductive PubDep (G : Graph) : Nat → Nat → Prop
-  | direct {t d : Nat} : d ∈ G.decl t → G.pl d ≠ G.pl t → PubDep G t d
-  | via {t m d : Nat} : m ∈ G.decl t → G.pl m = G.pl t → PubDep G m d → PubDep G t d
-
-inductive Needed (G : Graph) (Q : Query) : Nat → Prop
-  | root {t : Nat} : Root0 G Q t → Needed G Q t
-  | dep {a b : Nat} : Needed G Q a → Dep G a b → Needed G Q b
-  | test {t d : Nat} : Q.includeTests = false → t ∈ G.nodes → G.isTest t = true → PubDep G t d → Needed G Q d →
-      G.testOnly d = false → Needed G Q t
-
 /-- The property, part 1: no needed target is proposed for removal. -/
 def SafeTargets : Prop := ∀ (G : Graph) (Q : Query) (ts fs : List Nat),
   targetsToRemove G Q = some (ts, fs) → ∀ t ∈ ts, ¬ Needed G Q t
@@ -79,146 +68,91 @@ def SafeSubtargets : Prop := ∀ (G : Graph) (Q : Query) (ts fs : List Nat),
 def SafeSrcs : Prop := ∀ (G : Graph) (Q : Query) (ts fs : List Nat),
   targetsToRemove G Q = some (ts, fs) → ∀ f ∈ fs, ∀ k, Needed G Q k → f ∉ G.srcs k ∧ f ∉ G.data k
 
-theorem needed_of_reach {G : Graph} {Q : Query} {r x : Nat} (hr : Needed G Q r) (p : Reach G r x) : Needed G Q x := by
-  induction p with
-  | refl => exact hr
-  | step e _ ih => exact ih (.dep hr e)
-
-theorem reach_snoc {G : Graph} {r a b : Nat} (p : Reach G r a) (e : Dep G a b) : Reach G r b := by
-  induction p with
-  | refl => exact .step e (.refl _)
-  | step e' _ ih => exact .step e' (ih e)
-
-/-! ## what holds -/
-
-/-- Partial (holds for every graph, `gc_sibling` labels included since the repair of `gc-sibling-overrides-keep`):
-nothing that an initial root (binary, kept label, named, subinclude, command-line target) transitively depends on is
-proposed for removal. -/
-theorem C25_targets_partial (G : Graph) (Q : Query) (ts fs : List Nat) (h : targetsToRemove G Q = some (ts, fs)) :
-    ∀ t ∈ ts, ¬ ∃ r, Root0 G Q r ∧ Reach G r t := by
+theorem result_split {G : Graph} {Q : Query} {ts fs : List Nat} (h : targetsToRemove G Q = some (ts, fs)) :
+    (keepSet G Q).oof = false ∧ ts = removeTargets G Q (keepSet G Q).keep ∧ fs = removeSrcs G Q (keepSet G Q).keep := by
   unfold targetsToRemove at h
   simp only at h
   split at h
   · cases h
   · rename_i ho
     simp only [Option.some.injEq, Prod.mk.injEq] at h
-    obtain ⟨rfl, _⟩ := h
-    rintro t ht ⟨r, hr, p⟩
-    have hk := keepSet_reach G Q (by simpa using ho) r t hr p
-    unfold removeTargets at ht
-    exact removable_not_kept (List.mem_filter.mp ht).2 hk
+    exact ⟨by simpa using ho, h.1.symm, h.2.symm⟩
 
-/-- With `--conservative` the test rule is void, so the partial theorem is the full statement:
-no needed target is proposed for removal. -/
-theorem C25_targets_conservative_partial (G : Graph) (Q : Query) (ts fs : List Nat)
-    (h : targetsToRemove G Q = some (ts, fs)) (hc : Q.includeTests = true) :
-    ∀ t ∈ ts, ¬ Needed G Q t := by
-  intro t ht hn
-  apply C25_targets_partial G Q ts fs h t ht
-  clear ht
-  induction hn with
-  | root hr => exact ⟨_, hr, .refl _⟩
-  | dep _ e ih =>
-    obtain ⟨r, hr, p⟩ := ih
-    exact ⟨r, hr, reach_snoc p e⟩
-  | test hf => rw [hc] at hf; cases hf
+/-- No needed target is proposed for removal (full: every graph, `gc_sibling` labels, tests of tests, any arguments). -/
+theorem C25_targets : SafeTargets := by
+  intro G Q ts fs h t ht hn
+  obtain ⟨ho, rfl, _⟩ := result_split h
+  exact removable_not_kept (List.mem_filter.mp ht).2 (needed_kept G Q ho t hn)
+
+/-- The rule of a needed hidden sub-target is not proposed for removal either. -/
+theorem C25_subtargets : SafeSubtargets := by
+  intro G Q ts fs h c hn hp hin
+  obtain ⟨ho, rfl, _⟩ := result_split h
+  obtain ⟨hnodes, hrm⟩ := List.mem_filter.mp hin
+  exact removable_not_kept hrm ((keepSet_spec G Q ho).1 c (needed_kept G Q ho c hn) _ (Or.inr ⟨hp, rfl, hnodes⟩))
+
+/-- No file that a needed target uses, as a source or as data, is proposed for deletion. -/
+theorem C25_srcs : SafeSrcs := by
+  intro G Q ts fs h f hf k hn
+  obtain ⟨ho, _, rfl⟩ := result_split h
+  exact removeSrcs_not_kept hf k (needed_kept G Q ho k hn)
 
 /-- With `--conservative` the model never reaches a recursion bound on a graph that holds its dependencies: the
-result is always `some …`, so the theorem above covers every such run. -/
+result is always `some …`. -/
 theorem C25_fuel_conservative (G : Graph) (hwf : GWF G) (Q : Query) (hc : Q.includeTests = true)
     (hs : ∀ t ∈ Q.subincs, t ∈ G.nodes) (ha : ∀ t ∈ Q.args, t ∈ G.nodes) : ∃ ts fs, targetsToRemove G Q = some (ts, fs) := by
   unfold targetsToRemove
   simp only [keepSet_fuel_conservative G hwf Q hc hs ha, Bool.false_eq_true, ite_false]
   exact ⟨_, _, rfl⟩
 
-/-- Partial (since the repair of `gc-rule-of-needed-subtarget-removed`): the rule of a hidden sub-target that an initial
-root depends on is not proposed for removal either (removing the rule would remove the sub-target with it). -/
-theorem C25_subtargets_partial (G : Graph) (Q : Query) (ts fs : List Nat) (h : targetsToRemove G Q = some (ts, fs)) :
-    ∀ r c, Root0 G Q r → Reach G r c → G.hasParent c = true → G.pl c ∉ ts := by
-  unfold targetsToRemove at h
-  simp only at h
-  split at h
-  · cases h
-  · rename_i ho
-    simp only [Option.some.injEq, Prod.mk.injEq] at h
-    obtain ⟨rfl, _⟩ := h
-    intro r c hr p hp hin
-    have ho' : (keepSet G Q).oof = false := by simpa using ho
-    have hk := keepSet_reach G Q ho' r c hr p
-    unfold removeTargets at hin
-    obtain ⟨hn, hrm⟩ := List.mem_filter.mp hin
-    exact removable_not_kept hrm ((keepSet_spec G Q ho').1 c hk _ (Or.inr ⟨hp, rfl, hn⟩))
-
-/-- Partial: no file that a target below an initial root uses — as a source or (since the repair of
-`gc-data-file-not-kept`) as data — is proposed for deletion. -/
-theorem C25_srcs_partial (G : Graph) (Q : Query) (ts fs : List Nat) (h : targetsToRemove G Q = some (ts, fs)) :
-    ∀ f ∈ fs, ∀ r k, Root0 G Q r → Reach G r k → f ∉ G.srcs k ∧ f ∉ G.data k := by
-  unfold targetsToRemove at h
-  simp only at h
-  split at h
-  · cases h
-  · rename_i ho
-    simp only [Option.some.injEq, Prod.mk.injEq] at h
-    obtain ⟨_, rfl⟩ := h
-    intro f hf r k hr p
-    exact removeSrcs_not_kept hf k (keepSet_reach G Q (by simpa using ho) r k hr p)
-
-/-! ## what fails -/
+/-! ## the four repaired shapes -/
 
 def noB : Nat → Bool := fun _ => false
 def noL : Nat → List Nat := fun _ => []
 def Q0 : Query := { filter := [], args := [], named := [], subincs := [], includeTests := false }
 
-/-- the shape of the repaired finding `gc-sibling-overrides-keep` (fixed): binary `bin` depends on `lib`, which carries
-the label `gc_sibling:unused`; only the unused sibling goes. -/
+/-- `gc-sibling-overrides-keep` (fixed): binary `bin` depends on `lib`, which carries the label `gc_sibling:unused`; only
+the unused sibling goes. -/
 def gS : Graph := { nodes := [0, 1, 2], decl := fun | 0 => [1] | _ => [], res := fun | 0 => [1] | _ => [],
                      isBinary := fun | 0 => true | _ => false, isTest := noB, testOnly := noB, keepLabel := noB, hasParent := noB,
                      pl := id, sibs := fun | 1 => [2] | _ => [], srcs := noL, data := noL }
 
 example : targetsToRemove gS Q0 = some ([2], []) := by decide
 
-/-- witness 2 (known finding `gc-test-of-later-kept-target`): `a_test` tests `lib1`; `lib1` is needed only because
-`z_test` (a test of the needed `klib`) also depends on it.  Tests are examined once, in label order, so `a_test` is
-looked at before `lib1` is kept.  Label order: a_test(3), bin(0), klib(2), lib1(1), z_test(4). -/
+/-- `gc-test-of-later-kept-target` (fixed): `a_test` tests `lib1`; `lib1` is needed only because `z_test` (a test of the
+needed `klib`) also depends on it.  Label order: a_test(3), bin(0), klib(2), lib1(1), z_test(4).  The second pass keeps `a_test`. -/
 def gT : Graph := { nodes := [3, 0, 2, 1, 4],
                      decl := fun | 0 => [2] | 3 => [1] | 4 => [2, 1] | _ => [], res := fun | 0 => [2] | 3 => [1] | 4 => [2, 1] | _ => [],
                      isBinary := fun | 0 => true | 3 => true | 4 => true | _ => false, isTest := fun | 3 => true | 4 => true | _ => false,
                      testOnly := noB, keepLabel := noB, hasParent := noB, pl := id, sibs := noL, srcs := noL, data := noL }
 
-theorem C25_witness_test_order : ∃ ts fs, targetsToRemove gT Q0 = some (ts, fs) ∧ 3 ∈ ts ∧ Needed gT Q0 3 := by
-  refine ⟨[3], [], by decide, by decide, ?_⟩
+example : targetsToRemove gT Q0 = some ([], []) := by decide
+
+/-- non-vacuity of `C25_targets`: `a_test` is needed through the test rule applied twice -/
+example : Needed gT Q0 3 := by
   have h0 : Needed gT Q0 0 := .root (Or.inl ⟨by decide, by decide⟩)
   have h2 : Needed gT Q0 2 := .dep h0 (Or.inl (by decide))
   have h4 : Needed gT Q0 4 := .test rfl (by decide) rfl (.direct (d := 2) (by decide) (by decide)) h2 rfl
   have h1 : Needed gT Q0 1 := .dep h4 (Or.inl (by decide))
   exact .test rfl (by decide) rfl (.direct (d := 1) (by decide) (by decide)) h1 rfl
 
-/-- The property (part 1) does not hold. -/
-theorem C25_not_safe_targets : ¬ SafeTargets := by
-  intro h
-  obtain ⟨ts, fs, he, hm, hn⟩ := C25_witness_test_order
-  exact h gT Q0 ts fs he 3 hm hn
-
-/-- the shape of the repaired finding `gc-rule-of-needed-subtarget-removed` (fixed): `bin` uses `_gen#out` directly; the
-rule `gen` stays with its sub-target. -/
+/-- `gc-rule-of-needed-subtarget-removed` (fixed): `bin` uses `_gen#out` directly; the rule `gen` stays with its sub-target. -/
 def gH : Graph := { nodes := [2, 0, 1], decl := fun | 0 => [2] | 1 => [2] | _ => [], res := fun | 0 => [2] | 1 => [2] | _ => [],
                      isBinary := fun | 0 => true | _ => false, isTest := noB, testOnly := noB, keepLabel := noB,
                      hasParent := fun | 2 => true | _ => false, pl := fun | 2 => 1 | n => n, sibs := noL, srcs := noL, data := noL }
 
 example : targetsToRemove gH Q0 = some ([], []) := by decide
 
-/-- the shape of the repaired finding `gc-data-file-not-kept` (fixed): `shared.txt` (file 2) is a data file of the binary
-`bin` and a source of the unused `old`; only `old.go` (file 1) goes. -/
+/-- `gc-data-file-not-kept` (fixed): `shared.txt` (file 2) is a data file of the binary `bin` and a source of the unused
+`old`; only `old.go` (file 1) goes. -/
 def gD : Graph := { nodes := [0, 1], decl := noL, res := noL, isBinary := fun | 0 => true | _ => false, isTest := noB,
                      testOnly := noB, keepLabel := noB, hasParent := noB, pl := id, sibs := noL,
                      srcs := fun | 0 => [0] | 1 => [2, 1] | _ => [], data := fun | 0 => [2] | _ => [] }
 
 example : targetsToRemove gD Q0 = some ([1], [1]) := by decide
 
--- non-vacuity of the partial theorems: a run that removes something while keeping a non-trivial closure
-def gOK : Graph := { gS with sibs := noL }
-example : targetsToRemove gOK Q0 = some ([2], []) := by decide
-example : (keepSet gOK Q0).keep = [1, 0] := by decide
+-- a run that removes something while keeping a non-trivial closure
+example : (keepSet gS Q0).keep = [1, 0] := by decide
 example : targetsToRemove gT { Q0 with includeTests := true } = some ([], []) := by decide
 
 end PlzVerif.Props.C25
